@@ -477,11 +477,41 @@ func (w *world) exec(s script, fin map[string]string) (res execResult) {
 			}
 		}
 		if src != nil {
+			got := 0
+			probe := []byte("c12-probe")
+			if s.flav == "wsp" && want > 0 {
+				// the WSP server answers JOIN before it attaches the data channel to the session; packets
+				// consumed before that are dropped silently.  Probe on a subscribed channel type until one
+				// packet comes through, so that the pulse proper starts with the channel attached.
+				k0 := 0
+				for k, x := range strings.Split(fin["ch"], ",") {
+					if v, err := strconv.Atoi(x); err == nil && v >= 0 && v <= 255 {
+						k0 = k
+						break
+					}
+				}
+				deadline := time.Now().Add(sl.Watchdog)
+				through := false
+				for !through && time.Now().Before(deadline) {
+					src.WriteRtpPacket(&rtp.Packet{Channel: byte(k0), Data: probe})
+					for {
+						it, ok := c.TryNext(2 * time.Millisecond)
+						if !ok {
+							break
+						}
+						if it.Kind == sl.KFrame && string(it.Payload) == string(probe) {
+							through = true
+						}
+					}
+				}
+			}
 			for k := 0; k < 4; k++ {
 				src.WriteRtpPacket(&rtp.Packet{Channel: byte(k), Data: pulsePayload(k)})
 			}
-			got := 0
 			take := func(it sl.Item) {
+				if it.Kind == sl.KFrame && string(it.Payload) == string(probe) {
+					return
+				}
 				if it.Kind == sl.KFrame {
 					got++
 					k := pulseIndex(it.Payload)
